@@ -1,46 +1,75 @@
 --------------------------- MODULE MC_Escapers ---------------------------
-(* C07.  Exhaustive model check: for every string s made of at most MaxLen tokens of the group's
-   class alphabet, the implementation-shaped escaper of every context of the group, decoded by the
-   REFERENCE decoder of that context, gives back s.  Also exports the replay cases:
-     - every string of at most GenLen tokens per group (rendered in the contexts of that group),
-     - every single byte 0..255, and the length-2 slice "escape-relevant byte followed by every
-       ASCII byte 0..127 and a sample of non-ASCII successors" (rendered in every context). *)
+(* C07.  Exhaustive model check: for every string s made of at most MaxLen tokens of the target
+   language's class alphabet (and at most CoreLen tokens of its 10-token core alphabet), the
+   implementation-shaped escaper of every context of that language, decoded by the REFERENCE
+   decoder of that context, gives back s.  Also exports the replay cases:
+     - the strings of at most GenLen tokens (GenCore core tokens) per language, rendered in the
+       contexts of that language,
+     - every single byte 0..255, rendered in every context,
+     - the length-2 slice "escape-relevant byte followed by every ASCII byte 0..127 and 8 sampled
+       non-ASCII successors": Full = TRUE: all 53 escape-relevant bytes x every context;
+       Full = FALSE: per language, its own escape-relevant bytes x the contexts of that language. *)
 EXTENDS Escapers, TLC, Json, FiniteSets, SequencesExt
-CONSTANTS MaxLen,      \* tokens per string in the model check
-          GenLen,      \* tokens per string in the exported cases
-          AllCtl       \* TRUE: every control byte 0..31 is a first byte of the pair slice; FALSE: a subset
+CONSTANTS MaxLen, CoreLen,     \* tokens per string in the model check (class alphabet / core alphabet)
+          GenLen, GenCore,     \* tokens per string in the exported cases
+          Full
 
-Groups == <<"html", "js", "css", "url">>
+Groups == {"html", "js", "css", "url"}
 \* class alphabets: one representative per class the escapers / decoders distinguish, and short
 \* fragments that would form an escape of the target language if the escaper let them through
-Tokens(g) ==
-  CASE g = "html" -> { <<38>>, <<60>>, <<62>>, <<34>>, <<39>>, <<32>>, <<10>>, <<61>>, <<96>>,        \* & < > " ' SP LF = `
-                       <<97>>, <<59>>, <<108,116>>, <<97,109,112>>, <<35,54,48>>, <<35,120,51,67>>,    \* a ; lt amp #60 #x3C
-                       <<195,169>>, <<255>>, <<0>> }                                                    \* U+00E9, invalid byte, NUL
-    [] g = "js"   -> { <<92>>, <<34>>, <<39>>, <<60>>, <<10>>, <<0>>, <<8>>, <<11>>, <<127>>,         \* \ " ' < LF NUL BS VT DEL
-                       <<117>>, <<48,48,51,99>>, <<110>>, <<97>>,                                       \* u 003c n a
-                       <<226,128,168>>, <<226,128,169>>, <<195,169>>, <<255>>, <<226,128>> }            \* U+2028 U+2029 U+00E9 invalid, truncated
-    [] g = "css"  -> { <<92>>, <<34>>, <<39>>, <<60>>, <<10>>, <<13>>, <<0>>, <<32>>, <<9>>,          \* \ " ' < LF CR NUL SP TAB
-                       <<97>>, <<98>>, <<99>>, <<102>>, <<103>>, <<70>>, <<49>>,                        \* a b c f g F 1
-                       <<195,169>>, <<255>> }
-    [] g = "url"  -> { <<37>>, <<52>>, <<97>>, <<103>>, <<43>>, <<32>>, <<38>>, <<63>>, <<35>>,       \* % 4 a g + SP & ? #
-                       <<61>>, <<47>>, <<60>>, <<34>>, <<39>>, <<45>>, <<195,169>>, <<255>>, <<0>> }    \* = / < " ' - U+00E9 invalid NUL
-CtxOf(g) ==
-  CASE g = "html" -> <<"html_text", "attr_dq", "attr_sq", "attr_unq">>
-    [] g = "js"   -> <<"js_script_dq", "js_file_sq", "json_file">>
-    [] g = "css"  -> <<"css_style_dq", "css_file_sq">>
-    [] g = "url"  -> <<"url_query_dq", "url_path_dq", "url_path_unq">>
+Tokens(gr) ==
+  CASE gr = "html" -> { <<38>>, <<60>>, <<62>>, <<34>>, <<39>>, <<32>>, <<10>>, <<61>>, <<96>>,       \* & < > " ' SP LF = `
+                        <<97>>, <<59>>, <<108,116>>, <<97,109,112>>, <<35,54,48>>, <<35,120,51,67>>,   \* a ; lt amp #60 #x3C
+                        <<195,169>>, <<255>>, <<0>> }                                                   \* U+00E9, invalid byte, NUL
+    [] gr = "js"   -> { <<92>>, <<34>>, <<39>>, <<60>>, <<10>>, <<0>>, <<8>>, <<11>>, <<127>>,        \* \ " ' < LF NUL BS VT DEL
+                        <<117>>, <<48,48,51,99>>, <<110>>, <<97>>,                                      \* u 003c n a
+                        <<226,128,168>>, <<226,128,169>>, <<195,169>>, <<255>>, <<226,128>> }           \* U+2028 U+2029 U+00E9 invalid, truncated
+    [] gr = "css"  -> { <<92>>, <<34>>, <<39>>, <<60>>, <<10>>, <<13>>, <<0>>, <<32>>, <<9>>,         \* \ " ' < LF CR NUL SP TAB
+                        <<97>>, <<98>>, <<99>>, <<102>>, <<103>>, <<70>>, <<49>>,                       \* a b c f g F 1
+                        <<195,169>>, <<255>> }
+    [] gr = "url"  -> { <<37>>, <<52>>, <<97>>, <<103>>, <<43>>, <<32>>, <<38>>, <<63>>, <<35>>,      \* % 4 a g + SP & ? #
+                        <<61>>, <<47>>, <<60>>, <<34>>, <<39>>, <<45>>, <<195,169>>, <<255>>, <<0>> }   \* = / < " ' - U+00E9 invalid NUL
+Core(gr) ==
+  CASE gr = "html" -> { <<38>>, <<60>>, <<34>>, <<39>>, <<32>>, <<59>>, <<108,116>>, <<35,54,48>>, <<97,109,112>>, <<255>> }
+    [] gr = "js"   -> { <<92>>, <<34>>, <<39>>, <<60>>, <<10>>, <<117>>, <<48,48,51,99>>, <<110>>, <<226,128,168>>, <<226,128>> }
+    [] gr = "css"  -> { <<92>>, <<34>>, <<39>>, <<60>>, <<10>>, <<32>>, <<98>>, <<99>>, <<103>>, <<49>> }
+    [] gr = "url"  -> { <<37>>, <<52>>, <<97>>, <<103>>, <<43>>, <<32>>, <<38>>, <<63>>, <<35>>, <<255>> }
+ASSUME \A gr \in Groups : Core(gr) \subseteq Tokens(gr)
+CtxOf(gr) ==
+  CASE gr = "html" -> <<"html_text", "attr_dq", "attr_sq", "attr_unq">>
+    [] gr = "js"   -> <<"js_script_dq", "js_file_sq", "json_file">>
+    [] gr = "css"  -> <<"css_style_dq", "css_file_sq">>
+    [] gr = "url"  -> <<"url_query_dq", "url_path_dq", "url_path_unq">>
 RangeOf(f) == {f[x] : x \in DOMAIN f}
 
-VARIABLES g, n, s
-Init == g \in RangeOf(Groups) /\ n = 0 /\ s = <<>>
-Next == n < MaxLen /\ \E t \in Tokens(g) : s' = s \o t /\ n' = n + 1 /\ g' = g
+\* bytes some escaper or some decoder treats specially
+EscRelevant == (0..31) \cup {32, 34, 35, 37, 38, 39, 40, 41, 43, 47, 58, 59, 60, 61, 62, 63, 92, 96, 123, 125, 127}
+First(gr) ==
+  CASE gr = "html" -> {38, 60, 62, 34, 39, 32, 9, 10, 12, 13, 61, 96, 0, 35, 59}
+    [] gr = "js"   -> {92, 34, 39, 60, 62, 38, 10, 13, 0, 8, 9, 11, 12, 47, 31, 127}
+    [] gr = "css"  -> {92, 34, 39, 60, 62, 38, 40, 41, 43, 47, 58, 59, 123, 125, 10, 13, 12, 9, 0, 32, 31, 11}
+    [] gr = "url"  -> {37, 43, 38, 63, 35, 61, 47, 32, 34, 39, 60, 0, 59, 58}
+ASSUME \A gr \in Groups : First(gr) \subseteq EscRelevant
+NonAsciiSucc == { <<195,169>>, <<194,128>>, <<226,128,168>>, <<226,128,169>>, <<239,191,189>>,
+                  <<240,159,152,128>>, <<255>>, <<128>> }
+PairsOf(F) == {<<c, d>> : c \in F, d \in 0..127} \cup {<<c>> \o t : c \in F, t \in NonAsciiSucc}
+Dict(gr) == {<<c>> : c \in 0..255} \cup PairsOf(IF Full THEN EscRelevant ELSE First(gr))
 
-\* the model as found in the tree (prefixWithSpace tests 'a'..'b') for everything but CSS, where
-\* both variants are checked: with the intended range the round trip holds ...
+VARIABLES g, core, n, s
+\* besides the token strings, the model check covers the byte dictionary of the replay (every single
+\* byte, and the pair slice) so that every entry of every escape table of the transcription is exercised
+Init == /\ g \in Groups
+        /\ \/ core \in BOOLEAN /\ n = 0 /\ s = <<>>
+           \/ core = FALSE /\ n = MaxLen /\ s \in Dict(g)
+Next == /\ n < (IF core THEN CoreLen ELSE MaxLen)
+        /\ \E t \in (IF core THEN Core(g) ELSE Tokens(g)) : s' = s \o t
+        /\ n' = n + 1 /\ UNCHANGED <<g, core>>
+
+\* With the hex-letter range a..f in prefixWithSpace the round trip holds in every context ...
 RoundTrip == \A c \in RangeOf(CtxOf(g)) : Ok(c, s, Model(c, s, 102))
-\* ... and with the range as found it fails exactly on the strings where a hex-escaped byte is
-\* directly followed by one of c d e f C D E F (the extent of the defect, both directions)
+\* ... and with the range as found in the tree (a..b) it fails exactly on the strings where a
+\* hex-escaped byte is directly followed by one of c d e f C D E F (the extent of the defect, both
+\* directions).  Every other escaper has one variant only.
 CssAsFoundExtent == g = "css" => \A c \in CssCtx : (Ok(c, s, Model(c, s, 98)) <=> ~HexAfterEsc(s))
 \* showInURL's unescape(escape(s)) is the identity
 UrlPreIdentity == g = "url" => UrlPre(s) = s
@@ -49,16 +78,13 @@ UrlPreIdentity == g = "url" => UrlPre(s) = s
 \* (every large value is bound by a LET inside the one expression that uses it: TLC evaluates a
 \*  LET-bound value once, but re-evaluates a top-level definition at each reference made while
 \*  the ASSUME below is being evaluated)
-Strs(gr) == {Flatten(f) : f \in SeqsUpTo(Tokens(gr), GenLen)}
+Strs(gr) == {Flatten(f) : f \in SeqsUpTo(Tokens(gr), GenLen)} \cup {Flatten(f) : f \in SeqsUpTo(Core(gr), GenCore)}
 GroupCases(gr) == LET S == SetToSeq(Strs(gr)) IN [j \in 1..Len(S) |-> [s |-> S[j], cx |-> CtxOf(gr)]]
-Ctl == IF AllCtl THEN 0..31 ELSE {0, 8, 9, 10, 11, 12, 13, 27, 31}
-\* bytes some escaper or some decoder treats specially
-EscRelevant == Ctl \cup {32, 34, 35, 37, 38, 39, 40, 41, 43, 47, 58, 59, 60, 61, 62, 63, 92, 96, 123, 125, 127}
-NonAsciiSucc == { <<195,169>>, <<194,128>>, <<226,128,168>>, <<226,128,169>>, <<239,191,189>>,
-                  <<240,159,152,128>>, <<255>>, <<128>> }
-PairSet == {<<c>> : c \in 0..255} \cup {<<c, d>> : c \in EscRelevant, d \in 0..127}
-           \cup {<<c>> \o t : c \in EscRelevant, t \in NonAsciiSucc}
-PairCases == LET S == SetToSeq(PairSet) IN [j \in 1..Len(S) |-> [s |-> S[j], cx |-> <<>>]]   \* cx empty = every context
+SetCases(S, cx) == LET Q == SetToSeq(S) IN [j \in 1..Len(Q) |-> [s |-> Q[j], cx |-> cx]]
+PairCases == IF Full THEN SetCases({<<c>> : c \in 0..255} \cup PairsOf(EscRelevant), <<>>)      \* cx empty = every context
+             ELSE SetCases({<<c>> : c \in 0..255}, <<>>)
+                  \o SetCases(PairsOf(First("html")), CtxOf("html")) \o SetCases(PairsOf(First("js")), CtxOf("js"))
+                  \o SetCases(PairsOf(First("css")), CtxOf("css")) \o SetCases(PairsOf(First("url")), CtxOf("url"))
 Cases == LET R == GroupCases("html") \o GroupCases("js") \o GroupCases("css") \o GroupCases("url") \o PairCases
          IN [i \in 1..Len(R) |-> [id |-> i, s |-> R[i].s, cx |-> R[i].cx]]
 ASSUME ndJsonSerialize("cases.ndjson", Cases)
